@@ -89,10 +89,17 @@ pub fn attack_ops(rng: &mut ChaCha8Rng, board: &Board, n_ops: usize) -> Value {
 }
 
 pub fn hashes_of(s: &State, seeds: &[u64]) -> Vec<String> {
-    seeds.iter().map(|seed| {
-        let h = ZobristHasher::with(&mut ChaCha8Rng::seed_from_u64(*seed)).hash(s);
-        format!("{:016x}", h)
-    }).collect()
+    // the order in which the hashers meet a State value rotates from call to call: a key must not depend on which hasher
+    // saw the value (or a value it was cloned from) first
+    static TURN: std::sync::atomic::AtomicUsize = std::sync::atomic::AtomicUsize::new(0);
+    let k = TURN.fetch_add(1, std::sync::atomic::Ordering::Relaxed);
+    let mut out = vec![String::new(); seeds.len()];
+    for j in 0..seeds.len() {
+        let i = (j + k) % seeds.len();
+        let h = ZobristHasher::with(&mut ChaCha8Rng::seed_from_u64(seeds[i])).hash(s);
+        out[i] = format!("{:016x}", h);
+    }
+    out
 }
 
 pub struct HashRec { pub pos: Value, pub ident: String, pub h: Vec<String> }
